@@ -1,7 +1,7 @@
 """C09 — sleeping fibers wake exactly once and never early (structural part)."""
 from core import strip, is_field, key_str, key_mentions
 from facts import AnalysisBroken
-from rules import (nodeset, callpred, ev, Unevaluable, forced_edges, atom_from, one, some,
+from rules import (field_load, nodeset, callpred, ev, Unevaluable, forced_edges, atom_from, one, some,
                    is_param_load, is_var_load, is_global_load)
 import stale
 from props import c01
@@ -218,8 +218,8 @@ def check_early(ctx, P):
     o = ctx.ob("early.compare", rm, "a node is removed only when its wake tick is strictly below the tick count passed in (and is removed then)",
                "`>=` wakes a sleeper one tick early: a sleep of N ticks registered just before a tick boundary returns after N-1 ticks")
     isW = is_param_load(rm, "wake_time")
-    isN = lambda n: (n.k == "ImplicitCastExpr" and n.ck == "LValueToRValue" and strip(n).k == "MemberExpr" and strip(n).field == "wake_time")
-    isL = lambda n: (n.k == "ImplicitCastExpr" and n.ck == "LValueToRValue" and strip(n).k == "MemberExpr" and strip(n).field == "left")
+    isN = field_load("wake_time")
+    isL = field_load("left")
     isT = lambda n: (n.k == "ImplicitCastExpr" and n.ck == "LValueToRValue" and strip(n).k == "UnaryOperator" and strip(n).op == "*")
     bad = None
     valrets = [r for r in rm.returns() if r.kids and strip(r.kids[0]).cv != 0]
@@ -322,7 +322,7 @@ def check_tree(ctx, P):
     o = ctx.ob("tree.remove", rm, "waiter_remove_less_than descends to the leftmost node before it decides, and unlinks the removed node by putting its right subtree in its place",
                "deciding on an inner node misses smaller ticks in its left subtree (they wake late); dropping the right subtree loses every later sleeper")
     bad = None
-    isL = lambda n: n.k == "ImplicitCastExpr" and n.ck == "LValueToRValue" and strip(n).k == "MemberExpr" and strip(n).field == "left"
+    isL = field_load("left")
     valrets = [r for r in rm.returns() if r.kids and strip(r.kids[0]).cv != 0]
     isW = is_param_load(rm, "wake_time")
     atom = atom_from([(isL, 4096), (isStar, 4096), (isW, 9), (isT, 1)])
@@ -372,8 +372,8 @@ def check_shims(ctx, P):
     if len(cs) != 1 or not real:
         o.fail("shape not recognised", site=fn.loc, construct="shim shape")
     else:
-        isSec = lambda n: n.k == "ImplicitCastExpr" and n.ck == "LValueToRValue" and strip(n).k == "MemberExpr" and strip(n).field == "tv_sec"
-        isNs = lambda n: n.k == "ImplicitCastExpr" and n.ck == "LValueToRValue" and strip(n).k == "MemberExpr" and strip(n).field == "tv_nsec"
+        isSec = field_load("tv_sec")
+        isNs = field_load("tv_nsec")
         for sec, ns in ((0, 0), (0, 1), (0, 999), (0, 1000), (0, 999999999), (2, 500000000), (100000, 1)):
             atom = atom_from([(isSec, sec), (isNs, ns)])
             try:
@@ -402,6 +402,9 @@ def route(fn, cs, real, isTL, isMG):
 
 def run(ctx):
     P = ctx.prog()
+    c01.core_dependency(ctx, P, "core.dep", ('fiber_sleep', 'fiber_wait_for_event', 'fiber_event_wake_waiters', 'fiber_event_wake_sleepers', 'fiber_poll_events_internal'),
+                        'the sleep path (fiber_sleep / fiber_event_wake_sleepers)',
+                        'a sleeper resumed before its context is saved runs twice')
     check_register(ctx, P)
     check_wake(ctx, P)
     check_early(ctx, P)
